@@ -187,15 +187,36 @@ func (d *dumper) dump(v reflect.Value, depth int) {
 		d.nextID++
 		d.seen[v.Pointer()] = d.nextID
 		type kv struct{ k, v string }
+		// Order the keys first (by a dump that assigns no labels), then dump keys and values in that
+		// order: the labels given to shared pointers must not depend on Go's random map iteration
+		// (pointers to zero-size values all share one address, so they alias each other).
+		keys := v.MapKeys()
+		keyText := make(map[int]string, len(keys))
+		for i, k := range keys {
+			tmpSeen := make(map[uintptr]int, len(d.seen))
+			for p, id := range d.seen {
+				tmpSeen[p] = id
+			}
+			kd := &dumper{seen: tmpSeen, nextID: d.nextID, budget: 5000}
+			kd.dump(k, depth+1)
+			keyText[i] = kd.sb.String()
+		}
+		order := make([]int, len(keys))
+		for i := range order {
+			order[i] = i
+		}
+		sort.Slice(order, func(a, b int) bool { return keyText[order[a]] < keyText[order[b]] })
 		var entries []kv
-		for _, k := range v.MapKeys() {
+		for _, i := range order {
+			k := keys[i]
 			kd := &dumper{seen: d.seen, nextID: d.nextID, budget: 5000}
 			kd.dump(k, depth+1)
+			d.nextID = kd.nextID
 			vd := &dumper{seen: d.seen, nextID: d.nextID, budget: d.budget / 2}
 			vd.dump(v.MapIndex(k), depth+1)
+			d.nextID = vd.nextID
 			entries = append(entries, kv{kd.sb.String(), vd.sb.String()})
 		}
-		sort.Slice(entries, func(i, j int) bool { return entries[i].k < entries[j].k })
 		d.w("%s{", v.Type().String())
 		for i, e := range entries {
 			if i > 0 {
